@@ -352,3 +352,35 @@ def shared_geometry(ctx: Ctx) -> None:
     from . import C18 as _c18
     from .common import support
     support(ctx, [_c18.r1, _c18.r5, _c18.r6], {"Rectangle.rectangle_grid", "Rectangle.duplicate", "Rectangle.split", "Rectangle.split_horizontal", "Rectangle.split_vertical"})
+
+
+@rule("C11", "R8.refinement-requested-is-run", "GUARD",
+      "when the global floorplanner is asked for an aspect ratio it runs the die refinement, whatever the die looks like: in "
+      "tools/glbfloor/glbfloor.py the call of split_refinable_regions is decided by the command-line options alone -- no "
+      "test that looks at the die (a call or an attribute of an object) stands between the request and the refinement; whether "
+      "the die already honours the count and the ratio is split_refinable_regions' own business (seeded change C11-9: a "
+      "one-sided 'already fine' shortcut that sees wide cells and not tall ones)", floor=1)
+def r8_requested_is_run(ctx: Ctx) -> None:
+    n = 0
+    for f in ctx.model.all_functions(include_inlined=True):
+        if f.module.relpath != "tools/glbfloor/glbfloor.py":
+            continue
+        parents = {}
+        for p in ast.walk(f.node):
+            for c in ast.iter_child_nodes(p):
+                parents[c] = p
+        for c in walk_own(f.node):
+            if not (isinstance(c, ast.Call) and isinstance(c.func, ast.Attribute) and c.func.attr == "split_refinable_regions"):
+                continue
+            n += 1
+            ctx.site(f.where, "refinement call decided by the options alone", call=ast.unparse(c)[:70])
+            x = c
+            while x in parents and x is not f.node:
+                p = parents[x]
+                if isinstance(p, (ast.If, ast.While, ast.IfExp)) and x is not p.test:
+                    looks = [y for y in ast.walk(p.test) if isinstance(y, (ast.Call, ast.Attribute, ast.GeneratorExp, ast.ListComp))]
+                    if looks:
+                        ctx.report(f.where, f"refinement-skipped-by-state {norm_stmt(p.test)[:50]}", f"{f.qualname}: whether the requested die refinement runs "
+                                   f"depends on '{ast.unparse(p.test)[:70]}', a test on the state of the die and not on the request", lineno=p.lineno)
+                x = p
+    ctx.require(n >= 1, "tools/glbfloor/glbfloor.py: call of split_refinable_regions not found")
